@@ -68,6 +68,26 @@ def analyse(ctx, repo, prop, nb_ctx):
         elif isinstance(o_, Term) and o_.op == "bmat":
             bm = o_
     if trip is None or bm is None:
+        # n_b = 1: the full grid IS the position grid; a shortcut may return the position-grid matrix itself — then the metric
+        # factor of the property must still be applied (f^p)
+        def is_position_matrix(o):
+            parts_ = [underlying(x)[0] for x in o.args] if isinstance(o, Term) and o.op == "spadd" else []
+            has_ray = any(isinstance(x, Term) and x.op == "spadd" and all(isinstance(underlying(y)[0], Term) and underlying(y)[0].op == "diags"
+                                                                           for y in x.args) for x in parts_)
+            has_lat = any(isinstance(x, Term) and x.op == "bmat" for x in parts_)
+            return has_ray and has_lat
+        if nb_ctx == "one" and is_position_matrix(org):
+            has_f = ("sym", "f") in _sym_atoms(org)
+            p_exp = POWER[prop]
+            ctx.instance("DEG")
+            if p_exp == 0 or has_f:
+                (ctx.ok if p_exp == 0 else ctx.inconclusive)("DEG", f"{tag}.shortcut", "single rotation: the position-grid matrix is returned directly"
+                                                              + ("" if p_exp == 0 else " with a factor whose power is not derived"), where)
+            else:
+                ctx.violate("DEG", f"{tag}.shortcut", f"single rotation: the bare position-grid matrix is returned, the metric factor f^{p_exp} of "
+                            f"{prop} is not applied (volumes still carry f^3): entries are off by f^{p_exp}", where,
+                            "return position_adjacency", witness="no factor f in the returned matrix")
+            return
         ctx.inconclusive("KERNEL", f"{tag}.form", "the two families were not recognised", where, witness=show(res)[:300])
         return
     # ------------------------------------------------------------ same-rotation family
